@@ -563,7 +563,7 @@ class Engine(ExprMixin, CallMixin):
                     it = r
             if isinstance(it, (VList, VTuple)) and not (it.items and isinstance(it.items[0], str)):
                 outs.extend(self.unroll_for(n, s1, list(it.items)))
-            elif isinstance(it, VSeq):
+            elif isinstance(it, (VSeq, VStr)) and not isinstance(it, VStrAcc):
                 outs.extend(self.indexed_for(n, s1, it))
             else:
                 outs.extend(self.symbolic_for(n, s1, it))
@@ -625,7 +625,8 @@ class Engine(ExprMixin, CallMixin):
         b.assume(i.t < z3.Length(it.t))
         if not self.feasible(b):
             return outs
-        self.assign_target(n.target, lift(it.t[i.t]), b, n)
+        elem = VStr(z3.SubString(it.t, i.t, 1)) if isinstance(it, VStr) else lift(it.t[i.t])
+        self.assign_target(n.target, elem, b, n)
         for kind, s3, pl in self.block(n.body, b):
             if kind in ('fall', 'continue'):
                 s3.ghost['__for_i'] = i + 1
